@@ -9,7 +9,7 @@ PROP = {
          "thorough": {"cases": 300000, "max_size": 300, "workers": 12}},
         {"target": "c07_buffer_fuzz", "sub": "buffer",
          "quick": {"runs": 100000, "max_len": 600, "workers": 4},
-         "thorough": {"runs": 1500000, "max_len": 2000, "workers": 4}},
+         "thorough": {"runs": 300000, "max_len": 1500, "workers": 6}},
     ],
     "assumptions": ["memcpy(dst, nullptr, 0) (formally UB) is not flagged: no listed property claims UB-freedom",
                     "hasWritten() beyond writableSize() is clamped as the header documents",
